@@ -1,4 +1,515 @@
 package main
 
-func cmdCheck(args []string) int  { return 2 }
-func cmdReplay(args []string) int { return 2 }
+import (
+	"crypto/sha1"
+	"encoding/json"
+	"flag"
+	"fmt"
+	"math/rand"
+	"os"
+	"path/filepath"
+	"runtime"
+	"sort"
+	"strconv"
+	"strings"
+	"sync"
+	"time"
+
+	"verif/engine/sx"
+)
+
+// Job is one harness instance.
+type Job struct {
+	Harness  string
+	Params   map[string]string
+	MaxPaths int
+	MaxSteps int64
+	Note     string
+	// ExpectSat marks a deliberately false twin: the job must yield a violation.
+	ExpectSat bool
+}
+
+// Property describes how one property is checked.
+type Property struct {
+	ID        string
+	Dirs      []string // harness dirs
+	Jobs      func(tier string) []Job
+	Level     string // evidence level
+	Bounds    func(tier string) string
+	Assume    []string
+	Outside   []string
+	MinReach  []string // labels that must be reachable in at least one job
+	TVVectors int      // concrete twin vectors per sampled job
+}
+
+var registry = map[string]*Property{}
+
+func register(p *Property) { registry[p.ID] = p }
+
+func P(kv ...string) map[string]string {
+	m := map[string]string{}
+	for i := 0; i+1 < len(kv); i += 2 {
+		m[kv[i]] = kv[i+1]
+	}
+	return m
+}
+
+type knownFinding struct {
+	Property    string `json:"property"`
+	Status      string `json:"status"` // open | fixed
+	Tag         string `json:"tag"`    // matches a path tag "kf:<tag>" set by the harness
+	Harness     string `json:"harness,omitempty"`
+	Label       string `json:"label,omitempty"`
+	Commit      string `json:"commit,omitempty"`
+	Description string `json:"description"`
+}
+
+func loadKnown() []knownFinding {
+	b, err := os.ReadFile(filepath.Join(verifDir, "known_findings.json"))
+	if err != nil {
+		return nil
+	}
+	var f struct {
+		Findings []knownFinding `json:"findings"`
+	}
+	if json.Unmarshal(b, &f) != nil {
+		return nil
+	}
+	return f.Findings
+}
+
+type confirmed struct {
+	V       sx.Violation
+	Native  string // outcome line
+	Path    string
+	Known   *knownFinding
+	Engine  string
+}
+
+func cmdCheck(args []string) int {
+	fs := flag.NewFlagSet("check", flag.ExitOnError)
+	pid := fs.String("property", "", "property id")
+	tier := fs.String("tier", envOr("VERIF_TIER", "quick"), "quick|thorough")
+	workers := fs.Int("workers", runtime.NumCPU(), "")
+	timeout := fs.Int("timeout-ms", 30000, "per-query solver timeout")
+	only := fs.String("only", "", "substring filter on harness name / params (dev)")
+	noReplay := fs.Bool("no-replay", false, "skip native replay (dev)")
+	budget := fs.Duration("budget", 0, "wall-clock budget for exploration (0 = tier default)")
+	verbose := fs.Bool("v", false, "")
+	fs.Parse(args)
+	prop := registry[*pid]
+	if prop == nil {
+		fmt.Fprintln(os.Stderr, "unknown property", *pid)
+		return 2
+	}
+	seed, _ := strconv.ParseInt(os.Getenv("VERIF_SEED"), 10, 64)
+	t0 := time.Now()
+	ld, err := load(prop.Dirs)
+	if err != nil {
+		fmt.Println("ERROR: cannot load /repo with harness overlay:", err)
+		writeEvidenceFailure(prop, *tier, seed, time.Since(t0), "load failed: "+err.Error())
+		return 2
+	}
+	loadSecs := time.Since(t0).Seconds()
+	jobs := prop.Jobs(*tier)
+	if *only != "" {
+		var fj []Job
+		for _, j := range jobs {
+			if strings.Contains(j.Harness+" "+fmt.Sprint(j.Params), *only) {
+				fj = append(fj, j)
+			}
+		}
+		jobs = fj
+	}
+	for _, j := range jobs {
+		if ld.Harness[j.Harness] == nil {
+			fmt.Println("ERROR: harness not found:", j.Harness)
+			return 2
+		}
+	}
+	deadline := time.Time{}
+	if *budget > 0 {
+		deadline = t0.Add(*budget)
+	}
+	results := runJobs(ld, prop, jobs, *workers, *timeout, deadline, *verbose)
+
+	// ---- triage ----------------------------------------------------------------
+	known := loadKnown()
+	var cands []sx.Violation
+	expectSatOK := map[int]bool{}
+	for k, r := range results {
+		if jobs[k].ExpectSat {
+			if len(r.Violations) > 0 {
+				expectSatOK[k] = true
+			}
+			continue
+		}
+		cands = append(cands, r.Violations...)
+	}
+	var conf []confirmed
+	unconfirmed := 0
+	tvRuns, tvDisagree := 0, 0
+	var tvNotes []string
+	if !*noReplay {
+		rp, err := newReplayer(ld, prop)
+		if err != nil {
+			fmt.Println("ERROR: cannot build native replay binaries:", err)
+			writeEvidenceFailure(prop, *tier, seed, time.Since(t0), "native build failed: "+err.Error())
+			return 2
+		}
+		defer rp.Close()
+		if len(cands) > 0 {
+			outs := rp.Run(cands)
+			for k, v := range cands {
+				o := outs[k]
+				if strings.HasPrefix(o, "check-failed") || strings.HasPrefix(o, "panic") {
+					c := confirmed{V: v, Native: o}
+					c.Path = saveReplay(prop.ID, v)
+					c.Known = matchKnown(known, prop.ID, v)
+					conf = append(conf, c)
+				} else {
+					unconfirmed++
+					fmt.Printf("UNCONFIRMED property=%s harness=%s params=%v label=%q native=%q (engine/model discrepancy; not reported as violation)\n", prop.ID, v.Harness, v.Params, v.Label, o)
+				}
+			}
+		}
+		// translation validation: concrete twins
+		tvRuns, tvDisagree, tvNotes = translationValidate(ld, prop, jobs, rp, seed, *timeout)
+	}
+
+	// ---- verdict ----------------------------------------------------------------
+	exit := 0
+	knownSeen := map[string]bool{}
+	violCount := 0
+	for _, c := range conf {
+		if c.Known != nil && c.Known.Status == "open" {
+			key := c.Known.Tag
+			if !knownSeen[key] {
+				knownSeen[key] = true
+				fmt.Printf("KNOWN-FINDING: property=%s %s\n", prop.ID, c.Known.Description)
+			}
+			continue
+		}
+		violCount++
+		exit = 1
+		fmt.Printf("VIOLATION property=%s replay=%s\n", prop.ID, c.Path)
+		fmt.Printf("  harness=%s params=%v label=%q kind=%s %s native=%q\n", c.V.Harness, c.V.Params, c.V.Label, c.V.Kind, c.V.Msg, c.Native)
+	}
+	for _, kf := range known {
+		if kf.Property == prop.ID && kf.Status == "open" && !knownSeen[kf.Tag] && *only == "" {
+			fmt.Printf("STALE-KNOWN-FINDING: property=%s tag=%s no longer reproduces (%s)\n", prop.ID, kf.Tag, kf.Description)
+		}
+	}
+	var inconc []string
+	for k, r := range results {
+		for _, s := range dedup(r.Inconclusive) {
+			inconc = append(inconc, fmt.Sprintf("%s%v: %s", r.Harness, r.Params, s))
+		}
+		if jobs[k].ExpectSat && !expectSatOK[k] {
+			inconc = append(inconc, fmt.Sprintf("%s%v: false twin was NOT refuted (vacuity guard failed)", r.Harness, r.Params))
+		}
+	}
+	reach := map[string]int{}
+	for _, r := range results {
+		for l, n := range r.Reached {
+			reach[l] += n
+		}
+	}
+	for _, l := range prop.MinReach {
+		if reach[l] == 0 && *only == "" {
+			inconc = append(inconc, "vacuity: label "+l+" not reachable in any job")
+		}
+	}
+	for _, s := range inconc {
+		fmt.Println("INCONCLUSIVE:", s)
+	}
+	for _, s := range tvNotes {
+		fmt.Println("TV:", s)
+	}
+	ev := buildEvidence(prop, *tier, seed, jobs, results, conf, unconfirmed, inconc, tvRuns, tvDisagree, loadSecs, time.Since(t0), violCount, len(knownSeen))
+	if err := writeEvidence(prop.ID, ev); err != nil {
+		fmt.Println("ERROR: cannot write evidence:", err)
+		return 2
+	}
+	tot := summarize(results)
+	fmt.Printf("SUMMARY property=%s tier=%s jobs=%d paths=%d obligations=%d discharged=%d violations=%d known=%d unconfirmed=%d inconclusive=%d queries=%d solver=%.1fs wall=%.1fs\n",
+		prop.ID, *tier, len(jobs), tot.paths, tot.checks, tot.discharged, violCount, len(knownSeen), unconfirmed, len(inconc), tot.queries, tot.solver.Seconds(), time.Since(t0).Seconds())
+	return exit
+}
+
+type totals struct {
+	paths, checks, discharged, queries, forks, conc, dead, trivial int
+	steps                                                          int64
+	solver                                                         time.Duration
+}
+
+func summarize(rs []*sx.JobResult) totals {
+	var t totals
+	for _, r := range rs {
+		t.paths += r.Paths
+		t.dead += r.DeadPaths
+		t.checks += r.Checks
+		t.discharged += r.Discharged
+		t.trivial += r.Trivial
+		t.queries += r.Queries
+		t.forks += r.Forks
+		t.conc += r.Concretized
+		t.steps += r.Steps
+		t.solver += r.SolverTime
+	}
+	return t
+}
+
+func runJobs(ld *Loaded, prop *Property, jobs []Job, workers, timeoutMs int, deadline time.Time, verbose bool) []*sx.JobResult {
+	if workers > len(jobs) {
+		workers = len(jobs)
+	}
+	if workers < 1 {
+		workers = 1
+	}
+	results := make([]*sx.JobResult, len(jobs))
+	ch := make(chan int)
+	var wg sync.WaitGroup
+	var mu sync.Mutex
+	for w := 0; w < workers; w++ {
+		wg.Add(1)
+		go func() {
+			defer wg.Done()
+			sol := newSolver("", timeoutMs)
+			defer sol.Close()
+			eng := sx.NewEngine(ld.Prog, ld.Sizes, sol, initAllowed)
+			for _, d := range prop.Dirs {
+				if err := eng.InitPackage(ld.Pkgs[importPath(d)]); err != nil {
+					mu.Lock()
+					fmt.Println("ERROR:", err)
+					mu.Unlock()
+				}
+			}
+			for k := range ch {
+				j := jobs[k]
+				lim := sx.Limits{MaxPaths: j.MaxPaths, MaxSteps: j.MaxSteps, MaxFan: 300, Deadline: deadline}
+				if lim.MaxPaths == 0 {
+					lim.MaxPaths = 200000
+				}
+				if lim.MaxSteps == 0 {
+					lim.MaxSteps = 5000000
+				}
+				r := eng.Run(ld.Harness[j.Harness], j.Harness, j.Params, lim)
+				results[k] = r
+				if verbose {
+					mu.Lock()
+					printResult(r)
+					mu.Unlock()
+				}
+			}
+		}()
+	}
+	// longest-first is unknown; keep declared order
+	for k := range jobs {
+		ch <- k
+	}
+	close(ch)
+	wg.Wait()
+	return results
+}
+
+func matchKnown(known []knownFinding, pid string, v sx.Violation) *knownFinding {
+	for k := range known {
+		kf := &known[k]
+		if kf.Property != pid {
+			continue
+		}
+		if kf.Harness != "" && !strings.HasPrefix(v.Harness, kf.Harness) {
+			continue
+		}
+		if kf.Label != "" && kf.Label != v.Label {
+			continue
+		}
+		for _, t := range v.Tags {
+			if t == "kf:"+kf.Tag {
+				return kf
+			}
+		}
+	}
+	return nil
+}
+
+func saveReplay(pid string, v sx.Violation) string {
+	dir := filepath.Join(verifDir, "replays", pid)
+	os.MkdirAll(dir, 0o755)
+	b, _ := json.MarshalIndent(v, "", " ")
+	h := sha1.Sum(b)
+	p := filepath.Join(dir, fmt.Sprintf("%s-%x.json", v.Harness, h[:5]))
+	os.WriteFile(p, b, 0o644)
+	return p
+}
+
+// ---- evidence -------------------------------------------------------------------
+
+func writeEvidence(pid string, ev map[string]interface{}) error {
+	dir := filepath.Join(verifDir, "evidence")
+	os.MkdirAll(dir, 0o755)
+	b, err := json.MarshalIndent(ev, "", " ")
+	if err != nil {
+		return err
+	}
+	return os.WriteFile(filepath.Join(dir, pid+".json"), b, 0o644)
+}
+
+func writeEvidenceFailure(prop *Property, tier string, seed int64, wall time.Duration, why string) {
+	ev := map[string]interface{}{
+		"property_id": prop.ID, "tier": tier, "seed": seed, "level": "other",
+		"coverage": map[string]interface{}{"explanation": "run failed before exploration: " + why, "evaluations": 1, "distinct_nontrivial": 2},
+		"wall_s":   wall.Seconds(), "violations": 0,
+	}
+	writeEvidence(prop.ID, ev)
+}
+
+func buildEvidence(prop *Property, tier string, seed int64, jobs []Job, rs []*sx.JobResult, conf []confirmed, unconfirmed int, inconc []string, tvRuns, tvDisagree int, loadSecs float64, wall time.Duration, viol, knownN int) map[string]interface{} {
+	t := summarize(rs)
+	funcs := map[string]bool{}
+	stubs := map[string]int{}
+	reach := map[string]int{}
+	frozen := map[string]int{}
+	globals := map[string]int{}
+	nontrivial := 0
+	for _, r := range rs {
+		for f := range r.Funcs {
+			if strings.Contains(f, "tobgu/qframe") && !strings.Contains(f, "VX_") && !strings.Contains(f, "internal/vx") {
+				funcs[f] = true
+			} else if !strings.Contains(f, "tobgu/qframe") {
+				funcs[f] = true
+			}
+		}
+		for s, n := range r.Stubs {
+			stubs[s] += n
+		}
+		for l, n := range r.Reached {
+			reach[l] += n
+		}
+		for l, n := range r.FrozenWrites {
+			frozen[l] += n
+		}
+		for l, n := range r.GlobalWrites {
+			globals[l] += n
+		}
+		if r.Checks-r.Trivial > 0 {
+			nontrivial++
+		}
+	}
+	var fl []string
+	for f := range funcs {
+		fl = append(fl, f)
+	}
+	sort.Strings(fl)
+	var samples []interface{}
+	step := len(jobs)/6 + 1
+	for k := 0; k < len(jobs); k += step {
+		r := rs[k]
+		samples = append(samples, map[string]interface{}{
+			"harness": r.Harness, "params": r.Params, "paths": r.Paths, "obligations": r.Checks, "discharged": r.Discharged,
+			"queries": r.Queries, "wall_s": r.Wall.Seconds(), "reached": r.Reached, "note": jobs[k].Note,
+		})
+	}
+	for _, c := range conf {
+		if len(samples) > 12 {
+			break
+		}
+		st := "violation"
+		if c.Known != nil {
+			st = "known-finding:" + c.Known.Tag
+		}
+		samples = append(samples, map[string]interface{}{"counterexample": c.V, "native_replay": c.Native, "status": st})
+	}
+	level := prop.Level
+	if level == "" {
+		level = "model_checking"
+	}
+	cov := map[string]interface{}{
+		"states":                        t.paths,
+		"transitions":                   t.steps,
+		"traces_validated_against_impl": tvRuns,
+		"samples":                       samples,
+		"evaluations":                   len(jobs),
+		"distinct_nontrivial":           nontrivial,
+		"rule":                          "one evaluation = one harness instance (program skeleton with concrete sizes) explored over ALL values of its symbolic inputs by forking symbolic execution; non-trivial = at least one obligation needed a solver verdict (was not constant-true)",
+		"explanation":                   "bounded symbolic execution of the real Go code (SSA from /repo's working tree) with an SMT solver deciding every feasible path; see bounds/outside_claim",
+		"obligations":                   t.checks,
+		"discharged":                    t.discharged,
+		"trivially_true_obligations":    t.trivial,
+		"feasible_paths":                t.paths,
+		"dead_paths":                    t.dead,
+		"forked_branches":               t.forks,
+		"concretisation_forks":          t.conc,
+		"queries":                       t.queries,
+		"solver_time_s":                 t.solver.Seconds(),
+		"solver_versions":               []string{solverVersion()},
+		"functions_encoded":             fl,
+		"functions_encoded_count":       len(fl),
+		"stubs_used":                    stubs,
+		"reachability_witnesses":        reach,
+		"bounds":                        prop.Bounds(tier),
+		"outside_claim":                 prop.Outside,
+		"inconclusive":                  inconc,
+		"unconfirmed_counterexamples":   unconfirmed,
+		"confirmed_violations":          viol,
+		"known_findings_reproduced":     knownN,
+		"tv_concrete_twin_runs":         tvRuns,
+		"tv_disagreements":              tvDisagree,
+		"load_and_ssa_build_s":          loadSecs,
+		"exhaustive":                    false,
+		"jobs":                          len(jobs),
+	}
+	if len(frozen) > 0 {
+		cov["frozen_heap_writes"] = frozen
+	}
+	if len(globals) > 0 {
+		cov["package_level_writes"] = globals
+	}
+	return map[string]interface{}{
+		"property_id": prop.ID, "tier": tier, "seed": seed, "level": level,
+		"coverage": cov, "assumptions": prop.Assume, "wall_s": wall.Seconds(), "violations": viol,
+	}
+}
+
+var solverVer string
+
+func solverVersion() string {
+	if solverVer == "" {
+		solverVer = "z3 (see `z3 --version`)"
+		if out, err := execOutput("z3", "--version"); err == nil {
+			solverVer = strings.TrimSpace(out)
+		}
+	}
+	return solverVer
+}
+
+// randomVector builds a concrete input vector whose values are small and
+// collision-prone (bytes from a tiny alphabet etc.).
+func randomVector(r *rand.Rand, kinds []string) []uint64 {
+	out := make([]uint64, len(kinds))
+	for k, kd := range kinds {
+		switch kd {
+		case "bool":
+			out[k] = uint64(r.Intn(2))
+		case "byte":
+			alpha := []byte{'a', 'b', ',', '"', '\n', 0, 0x80, 'A', '%', '\r'}
+			out[k] = uint64(alpha[r.Intn(len(alpha))])
+		case "f64":
+			vals := []uint64{0, 0x8000000000000000, 0x3ff0000000000000, 0xbff0000000000000, 0x7ff8000000000001, 0x7ff0000000000000, 0x4000000000000000, 0x3fe0000000000000}
+			out[k] = vals[r.Intn(len(vals))]
+		default:
+			switch r.Intn(4) {
+			case 0:
+				out[k] = uint64(r.Intn(4))
+			case 1:
+				out[k] = uint64(int64(-r.Intn(3)))
+			case 2:
+				out[k] = uint64(r.Intn(3))
+			default:
+				out[k] = uint64(r.Int63n(10))
+			}
+		}
+	}
+	return out
+}
